@@ -2,7 +2,7 @@
 
 Fault enumeration over the recorded calls of scenario worlds: for every in-world entry and every
 recorded (stat/lstat/open/read/opendir/readdir/readlink/fiemap, ordinal) inject EACCES, EIO,
-ENOENT (and EOF on reads); real vanishing by an actor at the rendezvous before that call; pairs
+ENOENT, EINTR (and EOF on reads); real vanishing by an actor at the rendezvous before that call; pairs
 on two different entries."""
 import os
 import random
@@ -16,11 +16,11 @@ ID = "C15"
 LEVEL = "fault_enumeration"
 BUDGET = {"quick": {"wall_s": 420}, "thorough": {"wall_s": 3300}}
 EXHAUSTIVE = {"quick": True, "thorough": True}
-ERRNOS = ["EACCES", "EIO", "ENOENT"]
+ERRNOS = ["EACCES", "EIO", "ENOENT", "EINTR"]
 KINDS = ("stat", "lstat", "open", "read", "opendir", "readdir", "readlink", "fiemap")
 RULE = ("scenario worlds (near-duplicate families over nested directories, hard links, symlinks with -L, all four "
         "stages forced by knob overrides) x every recorded (call kind, path, ordinal) of the fault-free group run x "
-        "{EACCES, EIO, ENOENT} (+EOF for reads), + real vanishing (actor deletes the entry at the rendezvous before "
+        "{EACCES, EIO, ENOENT, EINTR} (+EOF for reads), + real vanishing (actor deletes the entry at the rendezvous before "
         "that call), + pairs on two different entries (seeded sample in quick, all pairs of first-stage calls in "
         "thorough); non-trivial = the injected action fired; distinct = distinct trace signatures")
 ASSUMPTIONS = [
